@@ -41,6 +41,9 @@ class C19(Harness):
         t._pushed_state = []
         t.in_context = False
         t(0)
+        t.timestep, t.until = 1.0, type(t).until          # leaving a time context stores these on the (global) instance: always have them stored
+        for pn in list(t.param):
+            t.param[pn]          # the global Time object outlives executions: create its per-instance Parameters once and for all
         P = type('P', (param.Parameterized,), {
             'a': param.Number(default=ng.UniformRandom(name='g', seed=1, time_dependent=True)),
             'b': param.Number(default=ng.UniformRandom(name='g', seed=1, time_dependent=True)),
